@@ -178,6 +178,10 @@ func (c *Crew) SetMachine(ctx context.Context, mid string, src *crew.SpecSource,
 		}
 
 		c.Machines[mid] = m
+	} else if state != nil {
+		// Replace the state of an existing machine (and not
+		// only report that as a change).
+		m.State = DefaultState(state)
 	}
 
 	if src != nil {
